@@ -317,7 +317,7 @@ func Gen(prop, tier string, seed uint64) *kernel.Plan {
 		cfg.Oracles["tags"] = true
 		cfg.Tags, tags = true, true
 	case "C09":
-		cfg.Oracles["tx"] = true
+		cfg.Oracles["tx"], cfg.Oracles["ref"] = true, true // remote-all / remote-none are decided against the reference of the operations seen
 	case "C10":
 		cfg.Oracles["twin"] = true
 	case "C15":
@@ -418,6 +418,11 @@ func Gen(prop, tier string, seed uint64) *kernel.Plan {
 		case 7:
 			evs = append(evs, Ev{T: "patch", R: r, S: g.U64()})
 		}
+	}
+	if (prop == "C09" || prop == "C01" || prop == "C15") && (kind == "counter" || kind == "map") && g.Chance(1, 12) {
+		// somewhere in the run one replica comes back from a long offline period
+		at := g.Intn(len(evs) + 1)
+		evs = append(evs[:at], append([]Ev{{T: "burst", R: g.Intn(n), N: g.Intn(40)}}, evs[at:]...)...)
 	}
 	cb, _ := json.Marshal(cfg)
 	return &kernel.Plan{Engine: "A", Property: prop, Seed: seed, Config: cb, Events: encodeEvents(evs)}
